@@ -351,7 +351,12 @@ def build_parser(case, enums, scratch, with_cfg):
             seen["defaults"][-1] = ["none"]
         if d.get("enable_path"):
             kw["enable_path"] = True
-        p.add_argument("--" + d["key"], type=ty, **kw)
+        act = p.add_argument("--" + d["key"], type=ty, **kw)
+        if "default" in kw and d["default"][0] != "lazy":
+            # the default as the parser keeps it (ActionTypeHint.normalize_default: an Enum member becomes its name)
+            kept = encode(act.default, True)
+            seen["defaults"][-1] = kept
+            strings_of(kept, seeds)
         keys.append(d["key"])
     return p, keys, seeds, seen
 
